@@ -2988,9 +2988,33 @@ class Data(Container, NetCDFHDF5, Files, core.Data):
             return set()
 
         try:
-            return set(source.get_filenames())
+            out = set(source.get_filenames())
         except AttributeError:
-            return set()
+            out = set()
+
+        # Include the files of any compression ancillary variables
+        # (count, index, list, tie point index, interpolation
+        # parameter and dependent tie point variables), without which
+        # the compressed data can not be uncompressed.
+        ancils = []
+        compression = self.get_compression_type()
+        if compression == "gathered":
+            ancils.append(self.get_list(None))
+        elif compression == "subsampled":
+            ancils.extend(self.get_tie_point_indices({}).values())
+            ancils.extend(self.get_interpolation_parameters({}).values())
+            ancils.extend(self.get_dependent_tie_points({}).values())
+        elif compression:
+            ancils.append(self.get_count(None))
+            ancils.append(self.get_index(None))
+
+        for a in ancils:
+            try:
+                out.update(a.get_filenames())
+            except AttributeError:
+                pass
+
+        return out
 
     def first_element(self):
         """Return the first element of the data as a scalar.
